@@ -516,8 +516,14 @@ impl Authentication for AuthenticationBuiltin {
 
     // Make sure we are expecting a authentication request from remote
     let remote_info = self.get_remote_participant_info(&initiator_identity_handle)?;
-    if let BuiltinHandshakeState::PendingRequestMessage = remote_info.handshake.state {
+    if let BuiltinHandshakeState::PendingRequestMessage
+    | BuiltinHandshakeState::PendingFinalMessage { .. } = remote_info.handshake.state
+    {
       // Nothing to see here. Carry on.
+      // A request that arrives while we are waiting for the final message starts
+      // the exchange over: the request we have answered may not have been the
+      // genuine one (it is not signed, anybody can send one), and then the genuine
+      // initiator must still get its answer.
     } else {
       return Err(create_security_error_and_log!(
         "We are not expecting to receive a handshake request. Handshake state: {:?}",
@@ -715,6 +721,12 @@ impl Authentication for AuthenticationBuiltin {
         // We are the initiator, and expect a reply.
         // Result is that we produce a MassageToken (i.e. send the final message)
         // and the handshake results (shared secret)
+        //
+        // Everything that can make us reject the message is checked first, in this
+        // closure, with the handshake state only borrowed: anybody can send us a
+        // message that does not check out, and then we must still be able to
+        // process the genuine reply when it arrives.
+        let validation = (|| -> SecurityResult<_> {
         let reply =
           BuiltinHandshakeMessageToken::try_from(handshake_message_in)?.extract_reply()?;
 
@@ -752,8 +764,8 @@ impl Authentication for AuthenticationBuiltin {
           ));
         }
 
-        if let Some(received_hash_c1) = reply.hash_c1 {
-          if hash_c1 != received_hash_c1 {
+        if let Some(ref received_hash_c1) = reply.hash_c1 {
+          if hash_c1 != *received_hash_c1 {
             return Err(create_security_error_and_log!(
               "Hash C1 mismatch on authentication reply"
             ));
@@ -777,7 +789,7 @@ impl Authentication for AuthenticationBuiltin {
           })?,
         );
 
-        if let Some(received_hash_c2) = reply.hash_c2 {
+        if let Some(ref received_hash_c2) = reply.hash_c2 {
           if received_hash_c2.as_ref() == c2_hash_recomputed.as_ref() {
             // hashes match, safe to proceed
           } else {
@@ -821,12 +833,12 @@ impl Authentication for AuthenticationBuiltin {
           to_vec::<Vec<BinaryProperty>, BigEndian>(&cc2_properties).map_err(|e| SecurityError {
             msg: format!("Error serializing CC2: {}", e),
           })?,
-          reply.signature,
+          reply.signature.clone(),
           c2_signature_algorithm,
         )?; // verify ok or exit here
 
         // Verify that the key agreement algo in the reply is as we expect
-        let kagree_algo_in_reply = reply.c_kagree_algo;
+        let kagree_algo_in_reply = reply.c_kagree_algo.clone();
         let expected_kagree_algo = dh1.kagree_algo_name_str();
         if kagree_algo_in_reply != expected_kagree_algo {
           return Err(create_security_error_and_log!(
@@ -834,6 +846,21 @@ impl Authentication for AuthenticationBuiltin {
              HandshakeReplyMessageToken. Expected {expected_kagree_algo}"
           ));
         }
+        Ok((reply, cert2, c2_hash_recomputed))
+        })();
+        let (reply, cert2, c2_hash_recomputed) = match validation {
+          Ok(validated) => validated,
+          Err(e) => {
+            // Keep waiting for the genuine reply.
+            let remote_info = self.get_remote_participant_info_mutable(&remote_identity_handle)?;
+            remote_info.handshake.state = BuiltinHandshakeState::PendingReplyMessage {
+              dh1,
+              challenge1,
+              hash_c1,
+            };
+            return Err(e);
+          }
+        };
 
         let dh1_public_key = dh1.public_key_bytes()?;
 
@@ -918,6 +945,10 @@ impl Authentication for AuthenticationBuiltin {
         // We are the responder, and expect the final message.
         // Result is that we do not produce a MassageToken, since this was the final
         // message, but we compute the handshake results (shared secret)
+        //
+        // Like above: validate with the state only borrowed, so that a message that
+        // does not check out leaves us waiting for the genuine final message.
+        let validation = (|| -> SecurityResult<()> {
         let handshake_token = BuiltinHandshakeMessageToken::try_from(handshake_message_in)?;
 
         let final_token = handshake_token.extract_final()?;
@@ -1006,6 +1037,22 @@ impl Authentication for AuthenticationBuiltin {
               "Signature verification failed in process_handshake: {e:?}"
             )
           })?;
+        Ok(())
+        })();
+        if let Err(e) = validation {
+          // Keep waiting for the genuine final message.
+          let remote_info = self.get_remote_participant_info_mutable(&remote_identity_handle)?;
+          remote_info.handshake.state = BuiltinHandshakeState::PendingFinalMessage {
+            hash_c1,
+            hash_c2,
+            dh1_public,
+            dh2,
+            challenge1,
+            challenge2,
+            remote_id_certificate,
+          };
+          return Err(e);
+        }
 
         // Compute the shared secret
         let shared_secret = dh2.compute_shared_secret(dh1_public)?;
@@ -1020,10 +1067,15 @@ impl Authentication for AuthenticationBuiltin {
 
         Ok((ValidationOutcome::Ok, None))
       }
-      other_state => Err(create_security_error_and_log!(
-        "Unexpected handshake state: {:?}",
-        other_state
-      )),
+      other_state => {
+        let error =
+          create_security_error_and_log!("Unexpected handshake state: {:?}", other_state);
+        // A message that we are not waiting for must not change the state we are
+        // in, e.g. cost us the shared secret of a completed handshake.
+        let remote_info = self.get_remote_participant_info_mutable(&remote_identity_handle)?;
+        remote_info.handshake.state = other_state;
+        Err(error)
+      }
     }
   }
 
